@@ -307,8 +307,8 @@ impl<X: Booleable> HasSuffStat<X> for Bernoulli {
 impl KlDivergence for Bernoulli {
     fn kl(&self, other: &Self) -> f64 {
         self.p.mul_add(
-            other.p.ln() - self.p.ln(),
-            self.q() * (other.q().ln() - self.q().ln()),
+            self.p.ln() - other.p.ln(),
+            self.q() * (self.q().ln() - other.q().ln()),
         )
     }
 }
